@@ -2,6 +2,7 @@ import LyModel.Ctx.LemmasCount
 import LyModel.Ctx.LemmasHash
 import LyModel.Ctx.LemmasRevert
 import LyModel.Ctx.Yl
+import LyModel.Ctx.LemmasYl
 import LyModel.Ctx.Examples
 /-!
 # C19 — change counter, module-set hash, and the context rebuilt from its yang-library data
@@ -38,14 +39,17 @@ private theorem cc_revert {c t n} {s : Ctx} (h : CC c t n s) : CC c t n (revert 
       induction l with
       | nil => intro u; exact ⟨rfl, rfl⟩
       | cons k r ih => intro u; exact ih (unimplement u k)
+    obtain ⟨g, _, e⟩ := fixLatest_spec (s.implementing.foldl unimplement s) (removeCreated (s.implementing.foldl unimplement s))
+    unfold revertCore
+    rw [e]
     refine ⟨?_, ?_, ?_⟩
-    · show (s.implementing.foldl unimplement s).changeCount = _
-      rw [(hcc _ s).1, show (revertCore s).ticks = (s.implementing.foldl unimplement s).ticks from rfl, (hcc _ s).2]
+    · show (s.implementing.foldl unimplement s).changeCount = _ + BitVec.ofNat 16 ((s.implementing.foldl unimplement s).ticks - t)
+      rw [(hcc _ s).1, (hcc _ s).2]
       exact h.value
     · show t ≤ (s.implementing.foldl unimplement s).ticks
       rw [(hcc _ s).2]; exact h.mono
-    · show (List.filter _ (s.implementing.foldl unimplement s).mods).length + t ≤ n + (s.implementing.foldl unimplement s).ticks
-      rw [(hcc _ s).2]
+    · show ((List.filter _ (s.implementing.foldl unimplement s).mods).map g).length + t ≤ n + (s.implementing.foldl unimplement s).ticks
+      rw [(hcc _ s).2, List.length_map]
       have h2 : (List.filter (fun m => !(s.implementing.foldl unimplement s).creating.contains m.key)
           (s.implementing.foldl unimplement s).mods).length ≤ s.mods.length := by
         refine Nat.le_trans (List.length_filter_le _ _) ?_
@@ -154,13 +158,15 @@ theorem hash_deterministic (s s' : Ctx) (h : s'.mods.map hashView = s.mods.map h
           · exact view_flatten _ _ h5 _
         simp only [hashPartsG, h1, h2, h3, hfi, hen]
         rw [ih r' _ hr]
-  simp only [Ctx.modulesHash, Ctx.modulesHashG, key _ _ _ 0 h]
+  simp only [Ctx.modulesHash, Ctx.modulesHashG]
+  rw [key _ (hashedMods Generated.CtxFacts.hashSkipsInternal s) (hashedMods Generated.CtxFacts.hashSkipsInternal s') 0
+    (by simp only [hashedMods, List.map_append, h])]
 
 /-- **flipping `implemented` of any one module changes the 32-bit value** (same length, one byte differs; every step of
     the Jenkins hash is a bijection of the state — proved algebraically in `Ctx/JenkinsLemmas.lean`) -/
 theorem hash_depends_on_implemented (s s' : Ctx) (pre suf : List Mod) (m : Mod) (hs : s.mods = pre ++ m :: suf)
     (hs' : s'.mods = pre ++ flipImpl m :: suf) (hw : WfNames s.mods) : s.modulesHash ≠ s'.modulesHash :=
-  hash_flip_implemented _ s s' pre suf m hs hs' hw
+  hash_flip_implemented _ _ s s' pre suf m hs hs' hw
 
 open LyModel.Ctx.Ex in
 /-- non-vacuity: `aaa` implemented vs. imported only (`0ab1… ≠ …`) -/
@@ -226,29 +232,131 @@ theorem hash_depends_fails (hcode : fiReset = false) :
   have h1 := h _ _ hne
   unfold Ctx.modulesHash at h1
   rw [show Generated.CtxFacts.hashFiReset = false from hcode] at h1
-  revert h1
-  decide +kernel
+  -- (whether or not the internal modules are hashed in front)
+  have h2 : ∀ sk : Bool, wOff.modulesHashG false sk = wOn.modulesHashG false sk := by
+    intro sk; cases sk <;> decide +kernel
+  exact h1 (h2 _)
 
 /-- … and with the index restarted the two contexts of the witness are told apart -/
-example : wOff.modulesHashG true ≠ wOn.modulesHashG true := by decide +kernel
+example : ∀ sk : Bool, wOff.modulesHashG true sk ≠ wOn.modulesHashG true sk := by
+  intro sk; cases sk <;> decide +kernel
 
 /-- the model's counter has the width of `ly_ctx.change_count` -/
 example : Generated.CtxFacts.changeCountBits = 16 := by decide
 
 /-- the shape table of the internal modules (`Ctx.internalMods`) lists the modules of `internal_modules[]` -/
 example : internalMods.map (fun m => (m.src.name, m.implemented)) =
-    Generated.CtxFacts.internalModules.map (fun x => (x.1.toUTF8.toList, x.2)) := by decide +kernel
+    Generated.CtxFacts.internalModules.map (fun x => (x.1.toUTF8.toList, x.2.2)) := by decide +kernel
+
+/-! ## the internal modules and the hash (F136) -/
+
+/-- the code as it is now: does the loop of `ly_ctx_get_modules_hash` start behind the internal modules? -/
+abbrev skipsInternal : Bool := Generated.CtxFacts.hashSkipsInternal
+
+/-- **F136, before the repair** (the loop starts at `ly_ctx_internal_modules_count()`): the hash is a function of the modules
+    loaded after the internal ones alone — whatever happens to an internal module (ietf-yang-types implemented, …), it does
+    not reach the hash. -/
+theorem hash_ignores_internal (hcode : skipsInternal = true) (s : Ctx) : s.modulesHash = hashOfList fiReset s.mods := by
+  unfold Ctx.modulesHash
+  rw [show Generated.CtxFacts.hashSkipsInternal = true from hcode, modulesHashG_eq_list]
+  simp [hashedMods]
+
+/-- **F136, after the repair** (the loop starts with the first module): the hashed modules are the internal ones, then the
+    others; and flipping `implemented` of any ONE internal module changes the 32-bit value, whatever the other modules are. -/
+theorem hash_covers_internal (hcode : skipsInternal = false) (s : Ctx) (hw : WfNames s.mods) :
+    s.modulesHash = hashOfList fiReset (internalHashMods ++ s.mods) ∧
+    ∀ (pre suf : List Mod) (m : Mod), internalHashMods = pre ++ m :: suf →
+      hashOfList fiReset (pre ++ m :: suf ++ s.mods) ≠ hashOfList fiReset (pre ++ flipImpl m :: suf ++ s.mods) := by
+  constructor
+  · unfold Ctx.modulesHash
+    rw [show Generated.CtxFacts.hashSkipsInternal = false from hcode, modulesHashG_eq_list]
+    simp [hashedMods]
+  · intro pre suf m hi
+    have hw2 : WfNames (pre ++ m :: (suf ++ s.mods)) := by
+      have := wfNames_hashed (sk := false) hw
+      simp only [hashedMods, Bool.false_eq_true, if_false, hi, List.append_assoc, List.cons_append] at this
+      exact this
+    have := hashOfList_flip fiReset pre (suf ++ s.mods) m hw2
+    simpa only [List.append_assoc, List.cons_append] using this
+
+/-- non-vacuity: the table has eight modules; `ietf-yang-types` (import-only in a new context) is one of them -/
+example : internalHashMods.length = 8 ∧ (internalHashMods.any fun m => m.src.name == "ietf-yang-types".toUTF8.toList && !m.implemented) = true := by
+  decide +kernel
 
 /-! ## the counter and features in an explicit-compile context (F133) -/
 
 open LyModel.Ctx.Ex in
-/-- `change_count` is incremented by `lys_parse_in` and `lys_compile` only: with LY_CTX_EXPLICIT_COMPILE a successful
+/-- the F133 witness: explicit-compile context, `aaa` parsed and compiled; then `lys_set_implemented(aaa, {"f1"})` -/
+def w133 (c : Cfg) : Ctx := runs (ctx0 [A] true c) [.parse A none, .compile]
+open LyModel.Ctx.Ex in
+def op133 : Op := .setImpl (bs "aaa", []) (some [bs "f1"])
+
+open LyModel.Ctx.Ex in
+/-- **F133, before the repair.**  `change_count` is incremented by `lys_parse_in` and `lys_compile` only: with LY_CTX_EXPLICIT_COMPILE a successful
     `lys_set_implemented(aaa, {"f1"})` changes what `lys_feature_value` and `ly_ctx_get_yanglib_data` report, and the counter
     (the recommended yang-library content-id) keeps its value until `ly_ctx_compile`. -/
-theorem counter_misses_pending_feature_change :
-    ∃ (s : Ctx) (op : Op), (run s op).1.isOk = true ∧ ylGen (run s op).2 ≠ ylGen s ∧ (run s op).2.changeCount = s.changeCount :=
-  ⟨runs (ctx0 [A] true) [.parse A none, .compile], .setImpl (bs "aaa", []) (some [bs "f1"]),
-    by decide +kernel, by decide +kernel, by decide +kernel⟩
+theorem counter_misses_pending_feature_change (c : Cfg) (hc : c.countsImplement = false) :
+    ∃ (s : Ctx) (op : Op), s.cfg = c ∧ (run s op).1.isOk = true ∧ ylGen (run s op).2 ≠ ylGen s ∧
+      (run s op).2.changeCount = s.changeCount := by
+  have h : ∀ c : Cfg, c.countsImplement = false → (w133 c).cfg = c ∧ (run (w133 c) op133).1.isOk = true ∧
+      ylGen (run (w133 c) op133).2 ≠ ylGen (w133 c) ∧ (run (w133 c) op133).2.changeCount = (w133 c).changeCount :=
+    forall_cfg (by decide +kernel)
+  exact ⟨w133 c, op133, h c hc⟩
+
+open LyModel.Ctx.Ex in
+/-- **F133, after the repair** (`change_count++` in `lys_implement` and for a feature change in `_lys_set_implemented`): the same
+    call is counted, and so is implementing a module in an explicit-compile context. -/
+theorem counter_sees_pending_feature_change (c : Cfg) (hc : c.countsImplement = true) :
+    (run (w133 c) op133).1.isOk = true ∧ ylGen (run (w133 c) op133).2 ≠ ylGen (w133 c) ∧
+      (run (w133 c) op133).2.changeCount ≠ (w133 c).changeCount ∧
+    (let s := (run (ctx0 [A, Top] true c) (.parse Top none)).2
+     let s' := (run s (.setImpl (bs "aaa", []) none)).2
+     s'.mods.map (·.implemented) ≠ s.mods.map (·.implemented) ∧ s'.changeCount ≠ s.changeCount) := by
+  have h : ∀ c : Cfg, c.countsImplement = true → (run (w133 c) op133).1.isOk = true ∧ ylGen (run (w133 c) op133).2 ≠ ylGen (w133 c) ∧
+      (run (w133 c) op133).2.changeCount ≠ (w133 c).changeCount ∧
+      ((run ((run (ctx0 [A, Top] true c) (.parse Top none)).2) (.setImpl (bs "aaa", []) none)).2.mods.map (·.implemented) ≠
+        ((run (ctx0 [A, Top] true c) (.parse Top none)).2).mods.map (·.implemented) ∧
+       (run ((run (ctx0 [A, Top] true c) (.parse Top none)).2) (.setImpl (bs "aaa", []) none)).2.changeCount ≠
+        ((run (ctx0 [A, Top] true c) (.parse Top none)).2).changeCount) := forall_cfg (by decide +kernel)
+  exact h c hc
+
+/-- where a successful call ends: the state after the forward part, possibly with the unres sets erased -/
+private theorem run_ok {s : Ctx} {op : Op} (h : (run s op).1.isOk = true) :
+    (run s op).2 = (forward op s).2 ∨ (run s op).2 = erase (forward op s).2 := by
+  unfold run at h ⊢
+  split at h
+  · simp [Except.isOk, Except.toBool] at h
+  · next hx =>
+    simp only [hx]
+    split at h
+    · next s1 hfw =>
+      simp only [hfw]
+      cases op <;> dsimp only <;> (try split) <;> simp
+    · simp [Except.isOk, Except.toBool] at h
+      cases op <;> simp at h
+
+/-- **F133, after the repair, in general.**  With `change_count++` in `lys_implement` and for a feature change of an
+    implemented module, EVERY successful call — `lys_parse`, `ly_ctx_load_module`, `lys_set_implemented`, `ly_ctx_compile`,
+    `ly_ctx_set_options`, in any context, explicit compilation or not, pending batch or not — after which the yang-library
+    data of the context is different has incremented the counter … -/
+theorem counter_counts_every_change (s : Ctx) (op : Op) (hcfg : s.cfg.countsImplement = true)
+    (hok : (run s op).1.isOk = true) (hne : ylGen (run s op).2 ≠ ylGen s) : s.ticks < (run s op).2.ticks := by
+  have hf : YT s.cfg (ylGen s) s.ticks (forward op s).2 := presYT_forward op s ⟨rfl, Nat.le_refl _, fun _ _ => rfl⟩
+  have key : YT s.cfg (ylGen s) s.ticks (run s op).2 := by
+    rcases run_ok hok with h | h
+    · rw [h]; exact hf
+    · rw [h]; exact hf.keep rfl rfl rfl
+  have h1 := key.mono
+  have h2 := key.same hcfg
+  by_cases h3 : (run s op).2.ticks = s.ticks
+  · exact absurd (h2 h3) hne
+  · omega
+
+/-- … so (fewer than 2^16 increments in one call) `ly_ctx_get_change_count` returns a different value -/
+theorem change_count_differs_after_change (s : Ctx) (op : Op) (hcfg : s.cfg.countsImplement = true)
+    (hok : (run s op).1.isOk = true) (hne : ylGen (run s op).2 ≠ ylGen s) (hk : (run s op).2.ticks - s.ticks < 2 ^ 16) :
+    (run s op).2.changeCount ≠ s.changeCount :=
+  change_count_differs s op (counter_counts_every_change s op hcfg hok hne) hk
 
 /-! ## rebuilt from the yang-library data -/
 
